@@ -513,7 +513,11 @@ func (cc *ccCtx) check(k int, cut map[int]int, power bool, reuse *recovery) *rec
 		target[kx] = string(v)
 		present[kx] = true
 	}
-	ok, _ := cc.search(started, must, target, present, true)
+	ok, nodes := cc.search(started, must, target, present, true)
+	if nodes > 2_000_000 {
+		r.inc("cc_search_gave_up") // inconclusive, counted, never reported (expected to stay 0)
+	}
+	r.add("cc_search_nodes", int64(nodes))
 	if ok {
 		r.inc("images_ok")
 		if len(started) > len(acked) {
